@@ -1,4 +1,4 @@
-import VrpProofs.C16.Reader
+import VrpProofs.C16.Accepts
 /-!
 # C16 — property theorems: routing-cost providers return exactly the supplied data
 
@@ -383,6 +383,25 @@ theorem provider_eq_spec (ms : List MatrixData) (pr : Provider) (hb : build ms =
       rw [hsing, h1, h2]
       unfold specGroupDuration specGroupDistance
       simp [hunt m hm, hdu, hdi]
+
+/-- **well_formed_is_served**: the property in one statement — for **every** well-formed matrix set (any size, any
+    number of profiles and timestamps, any order) the provider is built, and every in-range query of every vehicle whose
+    profile has matrices returns exactly what the specification says: the supplied entry, durations times the scale,
+    distances unscaled; matrix value at a matrix timestamp, first / last matrix outside the span, straight line for
+    durations and left value for distances in between. -/
+theorem well_formed_is_served (ms : List MatrixData) (n : Nat) (h : wellFormed ms n = true) :
+    ∃ pr, build ms = .ok pr ∧ pr.size = n ∧
+      ∀ (p : Profile), supplied ms p.index ≠ [] → ∀ frm dst, frm < n → dst < n → ∀ (t : Rat) (fb : Fallback),
+        pr.duration fb p frm dst t = specDuration ms n p frm dst t ∧
+        pr.distance fb p frm dst t = specDistance ms n p frm dst t := by
+  obtain ⟨pr, hb, hsize⟩ := build_accepts_well_formed ms n h
+  refine ⟨pr, hb, hsize, ?_⟩
+  intro p hne frm dst hf hd t fb
+  have hsq : ∀ m ∈ ms, m.durations.length = n * n := by
+    unfold wellFormed at h
+    simp only [Bool.and_eq_true, List.all_eq_true, beq_iff_eq] at h
+    exact fun m hm => (h.1.2 m hm).1
+  exact provider_eq_spec ms pr hb n hsq p hne (fun ht => wellFormed_distinct ms n h ht p.index) frm dst hf hd t fb
 
 /-! ## the builder rejects inconsistent sets -/
 
@@ -817,6 +836,15 @@ example : AwareCtx [exR, exL] (.aware 1 [exR, exL]) 1 ⟨0, 3 / 2⟩ ∧ Bracket
     rcases hx with h | h <;> subst h <;> simp [MatrixData.key, keyOfInt, exL, exR]
   · rw [keyOfRat_intCast]; simp [MatrixData.key, keyOfInt, exL]
   · rw [keyOfRat_intCast]; simp [MatrixData.key, keyOfInt, exR]
+
+/-- `well_formed_is_served`: both example sets are well formed -/
+example : wellFormed [exB, exA] 2 = true ∧ wellFormed [exR, exL] 1 = true := by
+  constructor
+  · simp [wellFormed, supplied, exA, exB]
+    intro x hx
+    have : x = 0 ∨ x = 1 := by omega
+    rcases this with h | h <;> subst h <;> simp
+  · simp [wellFormed, supplied, exL, exR, MatrixData.key, keyOfInt]
 
 /-- `builder_rejects_inconsistent_partial`: the same profile twice in an untimed set is flagged by the specification
     and meets both side conditions -/
